@@ -72,8 +72,8 @@ type Event struct {
 	// ErrClass names the reason of a rejected write for the finding signature only (never for a verdict):
 	// unique-name | graph-validation | other
 	ErrClass string `json:"errclass"`
-	Writes int    `json:"writes"` // raft commands submitted to the secondary
-	Case   Case   `json:"case"`
+	Writes   int    `json:"writes"` // raft commands submitted to the secondary
+	Case     Case   `json:"case"`
 }
 
 // Perturb, when set (h-repl -perturb, used only by the self-test of the check), corrupts what the
